@@ -59,7 +59,6 @@ def variants():
             out.append(('earlysend/W%d' % W, W, -1, 0, 0, [(1, W - 1, '0')]))
             out.append(('stopsend/W%d' % W, W, -1, 0, 0, [(1, W - 1, '0')]))
             out.append(('detachsend/W%d' % W, W, -1, 0, 0, [(1, W - 1, '0')]))
-            out.append(('senddetach/W%d' % W, W, -1, 0, 0, [(1, W - 1, '0')]))
         # pool virtual thread as destination
         for faults in (0, 1):
             sends = [(1, W, '0'), (1, W, '0'), (2, W, '0'), (10, W, '0'), (1, 0, '0')]
@@ -76,7 +75,7 @@ def gen_header(path, vs):
                     ', '.join('{ %d, %d, %s }' % s for s in sends)))
         f.write('};\nconst sc_scenario_t sc_scenarios[] = {\n')
         for i, v in enumerate(vs):
-            f.write('\t{ "%s", %s, %d },\n' % (v[0], {'backlog': 'backlog_scenario', 'pvtmix': 'pvtmix_scenario', 'attach': 'attach_scenario', 'fullq': 'fullq_scenario', 'latesend': 'latesend_scenario', 'earlysend': 'earlysend_scenario', 'stopsend': 'stopsend_scenario', 'detachsend': 'detachsend_scenario', 'senddetach': 'senddetach_scenario'}.get(v[0].split('/')[0], 'msg_scenario'), i))
+            f.write('\t{ "%s", %s, %d },\n' % (v[0], {'backlog': 'backlog_scenario', 'pvtmix': 'pvtmix_scenario', 'attach': 'attach_scenario', 'fullq': 'fullq_scenario', 'latesend': 'latesend_scenario', 'earlysend': 'earlysend_scenario', 'stopsend': 'stopsend_scenario', 'detachsend': 'detachsend_scenario'}.get(v[0].split('/')[0], 'msg_scenario'), i))
         f.write('};\nconst int sc_nscenarios = %d;\n' % len(vs))
 
 
@@ -88,7 +87,7 @@ def plan(tier, vs):
         if kind == 'fullq':
             jobs.append((name, 0, 0))       # 140 sends: the default schedule only (the kernel decides where the queue is full)
             continue
-        if kind in ('latesend', 'earlysend', 'stopsend', 'detachsend', 'senddetach'):
+        if kind in ('latesend', 'earlysend', 'stopsend', 'detachsend'):
             jobs.append((name, 1 if tier == 'quick' else 2, 1 if tier == 'quick' else 2))
             continue
         if tier == 'quick':
